@@ -146,6 +146,11 @@ def clash_inputs(ctx, rng):
         got = gen.carbon_contact(rng, x, parent=rng.choice(gen.POLAR_PARENTS[x]), axial=k % 4 != 3)
         if got:
             out.append({"what": got[1], "text": gen.pdb_text(got[0]), "args": ["--ff=AMBER"] + ([] if k % 3 else ["--noopt"]), "light": True})
+    # inputs that already carry their hydrogens, with a titration method (hydrogens stripped and built again mid-run)
+    for k in range(6 if ctx.quick else 40):
+        chains, what = gen.protonated_with_clashes(rng)
+        out.append({"what": what, "text": gen.pdb_text(chains), "args": ["--ff=" + gen.FORCE_FIELDS[k % 6], "--titration-state-method=propka", "--with-ph=7"],
+                    "post": True})
     from .c03 import environments
     for rep in range(2 if ctx.quick else 8):
         for name, chains in environments(rng):
